@@ -21,4 +21,8 @@ CASES = [
     dict(expect="silent", desc="from_future: early-return style in done", edits=[dict(file=FF,
          old="                observer.on_error(cast(Exception, ex))\n            else:\n                observer.on_next(value)\n                observer.on_completed()",
          new="                observer.on_error(cast(Exception, ex))\n                return\n            else:\n                observer.on_next(value)\n                observer.on_completed()")]),
+    dict(expect="fire", desc="pre-fix: run() tests the recorded error by truthiness", names="T3-blocking-result", edits=[dict(file=RUN,
+         old="    if exception is not None:", new="    if exception:")]),
+    dict(expect="silent", desc="run(): `is None` early form", edits=[dict(file=RUN,
+         old="    if exception is not None:\n        raise cast(Exception, exception)", new="    if exception is None:\n        pass\n    else:\n        raise cast(Exception, exception)")]),
 ]
